@@ -81,6 +81,19 @@ def run(spec: Dict[str, Any]) -> Dict[str, Any]:
             io[k] = logs_on
         if spec.get("max_len"):
             cfg.setdefault("game", {})["max_episode_length"] = spec["max_len"]
+    pre = spec.get("profile", {}).get("prelude")
+    if pre:
+        # ambient history of the PROCESS: another scenario was built and run here before (the trajectory of a scenario
+        # must not depend on what else its interpreter did earlier)
+        pcfg = scenarios.shipped(pre) if isinstance(pre, str) else copy.deepcopy(pre)
+        pio = pcfg.setdefault("io_settings", {})
+        for k in ("save_agent_actions", "save_step_metadata", "save_pcap_logs", "save_sys_logs", "save_agent_logs"):
+            pio[k] = False
+        penv = PrimaiteGymEnv(env_config=pcfg)
+        penv.reset(seed=5)
+        for i in range(12):
+            penv.step(i % penv.action_space.n)
+        penv.close()
     env = PrimaiteGymEnv(env_config=cfg)
     if not logs_on:
         SIM_OUTPUT.save_pcap_logs = SIM_OUTPUT.save_sys_logs = SIM_OUTPUT.save_agent_logs = False
